@@ -1,6 +1,7 @@
 """C11 - AST traversal: structural clauses (DESIGN.md §4 C11)."""
 from __future__ import annotations
 
+from rules import generic_rules as G
 from rules import language_rules as L
 from rules.astmodel import AstModel
 from sa.loader import Repo, fixture
@@ -37,6 +38,9 @@ def run(check: Check, repo: Repo, tier: str) -> None:
     L.result_filter(check, repo)
     L.edit_offset(check, repo)
     L.parallel_returns(check, repo)
+    L.edit_once(check, repo)
+    L.handler_lookup_owner(check, repo)
+    G.class_memo_own(check, [f for mn in ("language.ast", "language.visitor") for f in repo.mod(mn).functions()])
     # controls
     from sa.report import Check as _C
     fx = fixture("pop_controls")
